@@ -1147,12 +1147,21 @@ func (hv *Hash) Merge(o px.OrderedMap) px.OrderedMap {
 }
 
 func (hv *Hash) mergeEntries(o px.OrderedMap) []*HashEntry {
-	oh := o.(*Hash)
+	var others []*HashEntry
+	switch o := o.(type) {
+	case *Hash:
+		others = o.entries
+	case *MutableHashValue:
+		others = o.entries
+	default:
+		others = make([]*HashEntry, 0, o.Len())
+		o.EachPair(func(k, v px.Value) { others = append(others, WrapHashEntry(k, v)) })
+	}
 	index := hv.valueIndex()
 	selfLen := len(hv.entries)
-	all := make([]*HashEntry, selfLen, selfLen+len(oh.entries))
+	all := make([]*HashEntry, selfLen, selfLen+len(others))
 	copy(all, hv.entries)
-	for _, entry := range oh.entries {
+	for _, entry := range others {
 		if idx, ok := index[px.ToKey(entry.key)]; ok {
 			all[idx] = entry
 		} else {
